@@ -662,6 +662,37 @@ def reachable_avoiding(body, frm, bad_blocks, bad_edges):
 _UNWRAP_SRC = {}
 
 
+def try_sites(ctx):
+    """[(call block, Continue-arm block, Break-arm block, blocks that build the Err / None the
+    operand may be)] for every `x?` of the body.  A path through a block that builds the Err
+    cannot take the Continue arm, and the Break arm is the refusal: it returns the error."""
+    body = ctx.body
+    out = []
+    for (bi, t) in body.calls():
+        if callee_tag(t.get("callee")) != ("Try", "branch") or len(t["args"]) != 1 or t.get("target") is None:
+            continue
+        tb = t["target"]
+        tt = body.term(tb)
+        if tt["k"] != "switch" or tt["discr"]["k"] not in ("copy", "move"):
+            continue
+        dl = tt["discr"]["place"]["l"]
+        if not any(st["k"] == "assign" and st["place"]["l"] == dl and st["rv"]["k"] == "discr" and
+                   st["rv"]["place"]["l"] == t["dest"]["l"] and not st["rv"]["place"]["p"] for st in body.blocks[tb]["stmts"]):
+            continue
+        cont = [tg for (v, tg) in tt["arms"] if v == "0"]
+        brk = [tg for (v, tg) in tt["arms"] if v == "1"] or ([tt["otherwise"]] if tt.get("otherwise") is not None else [])
+        if not cont or not brk or t["args"][0]["k"] == "const":
+            continue
+        errs = set()
+        for (r, p) in ctx.org.operand(t["args"][0]):
+            if r[0] == "agg" and not p:
+                rv = ctx.org.stmt(r[1], r[2])["rv"]
+                if rv.get("variant_name") in ("Err", "None"):
+                    errs.add(r[1])
+        out.append((bi, cont[0], brk[0], errs))
+    return out
+
+
 def _unwrap_sources(ctx):
     """[(block of the unwrapping call, block in which the only Some/Ok alternative is built)]"""
     body = ctx.body
@@ -681,6 +712,19 @@ def _unwrap_sources(ctx):
                     cb = body.facts.body(rv.get("closure")) if rv.get("agg") == "closure" else None
                     if cb is not None and not cb.return_blocks():
                         ok = True
+        via_try = None
+        if not ok and tag == ("Try", "branch") and len(t["args"]) == 1 and t.get("target") is not None:
+            # `x?`: past the Continue edge x was Ok / Some
+            tb = t["target"]
+            tt = body.term(tb)
+            if tt["k"] == "switch" and tt["discr"]["k"] in ("copy", "move"):
+                dl = tt["discr"]["place"]["l"]
+                if any(st["k"] == "assign" and st["place"]["l"] == dl and st["rv"]["k"] == "discr" and
+                       st["rv"]["place"]["l"] == t["dest"]["l"] and not st["rv"]["place"]["p"] for st in body.blocks[tb]["stmts"]):
+                    cont = [tg for (v, tg) in tt["arms"] if v == "0"]
+                    if cont and len(body.preds(cont[0])) == 1:
+                        via_try = cont[0]
+                        ok = True
         if not ok or not t["args"] or t["args"][0]["k"] == "const":
             continue
         somes, others = [], 0
@@ -690,7 +734,7 @@ def _unwrap_sources(ctx):
                 vn = rv.get("variant_name")
                 if vn in ("Some", "Ok"):
                     somes.append(r[1])
-                elif vn in ("None",):
+                elif vn in ("None", "Err"):
                     others += 1
                 else:
                     somes = None
@@ -699,7 +743,7 @@ def _unwrap_sources(ctx):
                 somes = None
                 break
         if somes and len(somes) == 1 and others >= 1:
-            out.append((bi, somes[0]))
+            out.append((bi, somes[0]) if via_try is None else (via_try, somes[0], True))
     _UNWRAP_SRC[key] = (body, out)
     if len(_UNWRAP_SRC) > 4000:
         _UNWRAP_SRC.clear()
@@ -717,8 +761,9 @@ def facts_at(ctx, bb, _depth=0):
     # value-based refinement: past `x.unwrap()` / `x.expect(..)` / `x.unwrap_or_else(|| panic!(..))`
     # the value was Some; when x is `if c { Some(v) } else { None }` built in two places, that
     # means the place that built the Some ran, and the facts it was built under held
-    for (d, b1) in _unwrap_sources(ctx):
-        if d != bb and ctx.body.dominates(d, bb):
+    for ent in _unwrap_sources(ctx):
+        d, b1 = ent[0], ent[1]
+        if (d != bb or len(ent) > 2) and ctx.body.dominates(d, bb):
             for (cond, val, d1, dty) in guards(ctx, b1):
                 for f in normalise_guard(cond, val, dty):
                     if f + (d1,) not in out:
